@@ -34,6 +34,8 @@ Norm3(g, fmt) == {<<NormLit(t[1], fmt), t[2], NormLit(t[3], fmt)>> : t \in g}
 GName(x, fmt) == IF fmt = "trix" /\ x.k = "bnode" THEN [k |-> "bnode", v |-> x.v \o "#graph-name"] ELSE x
 Norm4(q, fmt) == {<<NormLit(t[1], fmt), t[2], NormLit(t[3], fmt), GName(t[4], fmt)>> : t \in q}
 
+(* JSON-LD compacted with a context writes xsd:string literals as JSON strings, i.e. as simple literals (the same literal in RDF 1.1) *)
+NormFmt(e) == IF Has(e, "str_eq") /\ e.str_eq THEN "hext" ELSE e.fmt
 Outcome(e) == IF e.res = "timeout" THEN "Terminates"
               ELSE IF e.res = "serialize_raised" THEN "SerializeRaised"
               ELSE IF e.res = "parse_raised" THEN "OwnOutputRejected"
@@ -53,7 +55,7 @@ Judge(e) ==
          IF ~e.expressible THEN (IF e.res = "timeout" THEN "Terminates" ELSE IF Has(e, "wellformed") /\ ~e.wellformed THEN "WellFormedOutput" ELSE "ok")
          ELSE LET o == Outcome(e) IN
               IF o # "ok" THEN o
-              ELSE IF Iso(Norm3(T3(e.before), e.fmt), Norm3(T3(e.after), e.fmt)) THEN "ok" ELSE "RoundTripIso"
+              ELSE IF Iso(Norm3(T3(e.before), NormFmt(e)), Norm3(T3(e.after), NormFmt(e))) THEN "ok" ELSE "RoundTripIso"
     [] e.op = "roundtrip_ds" ->
          LET o == Outcome(e) IN
          IF o # "ok" THEN o
